@@ -539,7 +539,10 @@ def _analyse(c, i):
               slow_complete=sum(1 for e in reqs_ex if e[X_RES] == 0 and e[X_KIND] == 1),
               ka_complete=sum(1 for e in reqs_ex if e[X_RES] == 0 and e[X_KIND] == 2),
               ka_spanning=sum(1 for (cid, w), v in per_conn.items() if v), v6_complete=sum(1 for e in reqs_ex if e[X_RES] == 0 and e[X_V6]))
-    an["check"] = model_check(nl, entries)
+    # a point that is no step of the model ends the part of the log the model can check
+    cut = next((n for n, (lb, _o) in enumerate(entries) if lb[1][0] == ("N", 9)), len(entries))
+    an["check"] = model_check(nl, entries[:cut])
+    an["cut"] = cut
     c.meta["an"] = an
     return an
 
@@ -575,6 +578,9 @@ def complaints(c, i):
     run before it becomes a verdict, see is_trouble)"""
     if c.meta.get("kind") == "malformed":
         return []
+    if i.startswith("(L (N 94) (N 6))"):
+        return [(True, "execute() of the first instance returned, but nobody answered at the control-socket path within 30 s%s"
+                 % (" (a stale socket file was at the path)" if c.meta.get("stale") else ""))]
     an = analyse(c, i)
     if an is None:
         return []
@@ -673,6 +679,11 @@ def complaints(c, i):
         why.append((False, "a port still accepts after every instance was shut down"))
     # (b) trace inclusion: the model accepts the log, and every port is served in every state along it
     chk = an["check"]
+    if an["unknown"]:
+        name, inst = an["unknown"][0]
+        why.append((False, "the hook log contains a point that is no step of Model/Handover.v: %s of instance %d (%d such point(s); "
+                    "ctl.got 2 = ctl::listen got Response::Error or a reply that is not 'ok' and runs without a control socket)"
+                    % (name, inst, len(an["unknown"]))))
     if chk is None:
         why.append((False, "the model could not check the log"))
     else:
@@ -682,8 +693,8 @@ def complaints(c, i):
             src = r["events"][an["src"][n]] if n < len(an["src"]) else None
             why.append((False, "the hook log is not a trace of Model/Handover.v: entry %d (%s; raw event %s) -> model says %d"
                         % (n, kv.pretty(an["entries"][n][0], 80) + " obs %d" % an["entries"][n][1], src, bad[0][1])))
-        elif acc != len(an["entries"]):
-            why.append((False, "the model stopped after %d of %d log entries" % (acc, len(an["entries"]))))
+        elif acc != an["cut"]:
+            why.append((False, "the model stopped after %d of %d log entries" % (acc, an["cut"])))
         if unserved:
             why.append((False, "running the log through the model: some listener's port is served by no instance after entry %d" % (unserved - 1)))
     return why
@@ -698,22 +709,28 @@ def is_trouble(c, i):
     """Harness trouble (not an outcome of the code): the case is run again, up to two more times; what still cannot be executed is
     counted and named as not_executed (too many of them fail the check as a harness error).
     * (L (N 93) ...) / (L (N 96) (N ..)): the harness could not run the case (ports, build without hooks ...);
-    * (L (N 94) ...): the first instance did not come up within 30 s;
+    * (L (N 94) (N 4|5)): execute() of the first instance did not return within 30 s ((N 6): it returned but nobody answers at the
+      path - a complaint of the "not within the time limit" kind);
     * a thread waited 20 s for the baton (`stalled`): the log is not serialised;
     * all complaints are of the kind "did not happen within the time limit": confirmed by a second run before it is a verdict."""
     if c.meta.get("kind") == "malformed":
         return False
-    if re.match(r"\(L \(N 93\)|\(L \(N 96\) \((N|B) |\(L \(N 94\)", i):
+    if re.match(r"\(L \(N 93\)|\(L \(N 96\) \((N|B) |\(L \(N 94\) \(N [45]\)", i):
         return True
     if c.meta.get("kind") == "replay":
         return False
-    an = analyse(c, i)
-    if an is None or "crash" in an:
-        return False
-    if an["r"]["stalled"] != 0:
-        return True
+    if not i.startswith("(L (N 94)"):
+        an = analyse(c, i)
+        if an is None or "crash" in an:
+            return False
+        if an["r"]["stalled"] != 0:
+            return True
     why = complaints(c, i)
     if why and all(t for t, _ in why):
+        if i.startswith("(L (N 94)"):
+            # the same text every time: count the looks (one per attempt)
+            c.meta["n94"] = c.meta.get("n94", 0) + 1
+            return c.meta["n94"] < 2
         seen = c.meta.setdefault("timing_seen", [])
         if hash(i) not in seen:
             seen.append(hash(i))
@@ -737,7 +754,7 @@ def case(n, k, flavour, seed, jitter, delays, slow_ms, nslow, gap, kind, eager=0
     x = xl(xn(n), xn(k), xn(flavour), xn(seed), xn(jitter), ds, xn(slow_ms), xn(nslow), xn(gap), xn(eager), xn(ka), xn(dual),
            xn(stale), xn(block))
     return Case("handover.run", x, None, {"kind": kind, "k": k, "n": n, "flavour": flavour, "dual": dual, "ka": ka, "eager": eager,
-                                          "delays": [d[0] for d in delays]}, "dev")
+                                          "stale": stale, "delays": [d[0] for d in delays]}, "dev")
 
 
 # every hook point; the ones of the start-up program are delayed in successors only
